@@ -926,14 +926,14 @@ Source model under the contract, compiled by the whole pipeline; `to_standard_fo
 stops `Finished`.  Then the `LpSolution` handed back (`as_lp_solution` on `variables_values`, value `optimal_value`), read
 by variable name, satisfies the SOURCE model, reports the source objective at that assignment, and nothing satisfying the
 source is strictly better.  No assumption about a solver is left; what is left about computed data is decidable:
-`DomainFormat lm` (see `ComposeWF.lean`), `plainName` for the variables of `lm` (the known prefix-collision finding of
-`as_lp_solution`), `StartFacts`. -/
+`DomainFormat lm` (see `ComposeWF.lean`), `plainName` for the NON-FREE variables of `lm` (the known prefix-collision
+finding of `as_lp_solution`; free variables may carry any name), `StartFacts`. -/
 theorem c03_slow_simplex_returned_solution_partial {m : Model (Ext K)} {t : K} (ht : 0 ≤ t) {maxSteps : Nat}
     {lm : LinModel (Ext K)} (h : Compile.linearize m (.fin t) maxSteps = .ok lm)
     (hm : LogicModel m m.domain) (hsh : AssertShape m) (hok : DeclOK m.domain)
     (ht1 : t < 1 ∨ NoIntegerVars m.domain)
     {s : StdModel (Ext K)} (hs : Standardize.standardize lm = .ok s) (hfmt : ComposeWF.DomainFormat lm)
-    (hpl : ∀ v ∈ lm.vars, ComposeNames.plain v = true)
+    (hpl : ∀ v ∈ StdLayout.keep (StdSpec.flags lm) lm.vars, ComposeNames.plain v = true)
     {tol : K} (htol : 0 < tol) (stallExtra phase1Limit : Nat)
     (hfacts : ComposeSimplex.StartFacts tol stallExtra phase1Limit (ComposeSimplex.stdK s))
     {T : Tab K} (hT : @Tableau.intoTableau K (exactArith K) tol stallExtra phase1Limit (ComposeSimplex.stdK s) = .ok T)
@@ -969,7 +969,8 @@ example (t : ℚ) (ht : 0 ≤ t) :
   have hpl : ∀ v ∈ exMax.vars, ComposeNames.plain v = true := by
     intro v hv; simp only [exMax, List.mem_singleton] at hv; subst hv; decide
   have h := c03_slow_simplex_returned_solution_partial ht (exSrc_compile (.fin t)) (LogicModel.ofFragModel exSrc_frag)
-    (assertShape_of_fragModel exSrc_frag) exSrc_declOK (Or.inr exSrc_noInt) exMax_std hfmt hpl
+    (assertShape_of_fragModel exSrc_frag) exSrc_declOK (Or.inr exSrc_noInt) exMax_std hfmt
+    (fun v hv => hpl v ((ComposeNames.keep_sublist _ _).subset hv))
     (tol := (1/100000 : ℚ)) (by norm_num) 1 10 exMax_startFacts exMax_intoTableau 10 [] exTM'_solve.1
   rw [exTM'_solve.2] at h
   obtain ⟨hs, v, hv, _, hbest⟩ := h
